@@ -94,6 +94,13 @@ func VerifH_C05_History() {
 		{`$string()`, `t.$string()`},
 		{`s.$length()`, `t.$length()`},
 		{`4 ~> $power(2)`, `n ~> $power(3)`},
+		// a built-in reached through a composition after the same built-in was used bare on the right of
+		// ~> or partially applied under another context
+		{`($f := $lowercase ~> $contains; $f("ELL"))`, `t.("x" ~> $contains)`},
+		{`($f := $lowercase ~> $substringBefore; $f("A"))`, `t.("x" ~> $substringBefore)`},
+		{`($f := $uppercase ~> $pad; $f("a"))`, `t.$pad(?, 3)(2)`},
+		{`($f := $string ~> $split; $f(1))`, `t.(" " ~> $split)`},
+		{`($f := $lowercase ~> $contains; $f("ELL"))`, `t.$contains(?)("x")`},
 	}
 	p := pairs[verifChoose(len(pairs))]
 	doc := map[string]interface{}{"s": hSafeString(2), "t": hSafeString(2), "n": hFinite()}
